@@ -37,6 +37,7 @@ COMPONENTS = {
 }
 ASSUMPTIONS = ["fail-stop destroys a declared set of directories (the failing job's own, optionally ancestors' outputs), never the workflow inputs",
                "max_retries is large enough that no job exhausts it (C17 covers exhaustion)"]
+INTERLEAVE_CASES = False   # the enumerated fault classes run first and completely; seeded runs use what is left of the budget
 TIERS = {"quick": {"runs": 700, "budget_s": 55}, "thorough": {"runs": 40000, "budget_s": 480}}
 SIM_KW = {"max_steps": 3_000_000, "wall_cap": 120.0, "max_vtime": 1e7}
 
